@@ -46,14 +46,14 @@ reg(P(
 
 reg(P(
     "C13", "Constants evaluate arithmetically and reach every target language intact",
-    [("B4", ALL), ("V1", {"constant"}), ("C6", ALL), ("A1", {"parse"}), ("A7", {"key"}), ("B5", ALL)],
+    [("B4", ALL), ("V1", {"constant"}), ("C6", ALL), ("A1", {"parse"}), ("A7", {"key"}), ("B5", ALL), ("F11", ALL)],
     "precedence/associativity table, operand order and integer division of the four binary actions, grouping, literal decoding, escape table, token order (B4); the evaluated value is what Constant.value, Array.cap and option values receive (V1); bool/int literal tables per language and string constants reach quoted templates only through an escaping function; the three constant-emission templates take value and type from the same constant (C6); no memoised function on the way tells apart values its memo key equates (True / 1, False / 0) (A7 part key).",
     "numeric results are not computed; Python's int arithmetic is trusted.",
 ))
 
 reg(P(
     "C17", "-O and -F restrict what is generated without altering it",
-    [("A9", ALL), ("B3", {"extensible-marker"}), ("A5", {"filter-needs-O", "parse-guard", "fatal"}), ("F4", ALL), ("A7", {"key"}), ("A10", ALL)],
+    [("A9", ALL), ("B3", {"extensible-marker"}), ("A5", {"filter-needs-O", "parse-guard", "fatal"}), ("F4", ALL), ("A7", {"key"}), ("A10", ALL), ("F11", ALL)],
     "traditional mode reaches every Parser including import children; the extensible marker is derivable only through the guarded production; language capability is checked at renderer construction; -F without -O hits fatal before render; the -F list only selects encoder/decoder function blocks with one shared predicate and never flows into a template; data-structure dispatchers ignore it (F4).",
     "textual identity of two compiler runs is not observed; it follows from F4's non-interference only as far as the template abstraction goes.",
 ))
@@ -95,7 +95,7 @@ reg(P(
 
 reg(P(
     "C15", "Generated API names follow the documented scheme",
-    [("C5", ALL), ("A7", {"key"}), ("F2", ALL)],
+    [("C5", ALL), ("A7", {"key"}), ("F2", ALL), ("F11", ALL)],
     "each effective entry of the three case_style_mapping() tables lies in the set the scheme allows for that (language, kind): identity on style-guide names, except the fixed transformations C message -> pascal, Python message -> keep, Go struct field -> pascal; style names resolve to the right converter functions; nested names are prefix + enclosing names outermost first + own name; Encode/Decode/Json/BYTES_LENGTH_/BYTES_LENGTH/encode/decode/Size/JSON-tag templates; output file name and extensions; the C name prefix flows only into the definition-name builder.",
     "behaviour of pascal_case / snake_case / upper_case on arbitrary words (assumed: keep is the identity, pascal on PascalCase, snake on snake_case, upper and (snake, upper) on UPPER_SNAKE).",
     ["keep_case/pascal_case/snake_case/upper_case are the identity on names of their own style"],
@@ -138,7 +138,7 @@ reg(P(
 
 reg(P(
     "C10", "Every accepted schema yields code the target toolchains accept (narrow: necessary structural conditions)",
-    [("F2", ALL), ("F1", ALL), ("A2", ALL), ("A1", {"render"}), ("A13", ALL), ("F6", ALL), ("F6b", ALL), ("F7", ALL), ("F8", ALL), ("C5", {"common", "owner", "qualifier", "binding", "outfile"}), ("F9", ALL), ("F10", ALL), ("A7", {"key"})],
+    [("F2", ALL), ("F1", ALL), ("A2", ALL), ("A1", {"render"}), ("A13", ALL), ("F6", ALL), ("F6b", ALL), ("F7", ALL), ("F8", ALL), ("C5", {"common", "owner", "qualifier", "binding", "outfile"}), ("F9", ALL), ("F10", ALL), ("A7", {"key"}), ("F11", ALL), ("C6", ALL)],
     "definitions are emitted children first in declaration order for the bound proto (F2); each block class pushes balanced brackets and #if/#endif on every path (F1); rendering raises no internal error: exhaustive dispatch, abstract coverage, render-context and push_string discipline (A2, A1 render part, A13); internal helper-name templates are uniquely decodable (F6); include/import statements name the file the compiler generates (F7).",
     "whether gcc, g++, CPython or Go accept the output (that needs the output); struct layout equality in C++; reserved words.",
 ))
